@@ -153,6 +153,8 @@ def run(tier):
     stage_expected_pairing(prog, res)
     window_update(prog, res)
     zbuff_wrappers(prog, res)
+    from .C10 import staging_buffer          # shared clause: the staging buffer holds every unit the decoder can ask for
+    staging_buffer(prog, res)
     return res.finish(
         explanation="Completion signalling of ZSTD_decompressStream is cut by `nothing expected` and `output flushed`; "
                     "both arms of its load stage bound the bytes they consume by expected - already loaded; every "
